@@ -140,6 +140,9 @@ func (w *WebsocketConnection) handlePing() {
 
 func (w *WebsocketConnection) closeWithError(err error, reason string) {
 	logging.Log().Debug(w.remoteSki, reason, err)
+	// close the connection first, like on read errors: once it is marked as closed, close() returns early
+	// and would neither close the close channel nor the underlying connection
+	w.close()
 	w.setConnClosedError(err)
 	w.dataProcessing.ReportConnectionError(err)
 }
